@@ -2,6 +2,7 @@ package props
 
 import (
 	"fmt"
+	"os"
 
 	"github.com/scottyw/tetromino/gameboy/cpu"
 	"verifmc/explore"
@@ -32,8 +33,23 @@ func fold(a uint16) uint16 {
 	return a
 }
 
-func newCPUEnv() *cpuEnv {
-	e := &cpuEnv{m: machine.New(machine.ROMOnly(), machine.Opts{})}
+func newCPUEnv() *cpuEnv { return newCPUEnvOpts(machine.Opts{}) }
+
+// newCPUEnvTrace builds the machine with Config.DebugCPU (instruction trace) on; callers silence os.Stdout.
+func newCPUEnvTrace() *cpuEnv { return newCPUEnvOpts(machine.Opts{DebugCPU: true}) }
+
+// quietStdout points os.Stdout at /dev/null while f runs (the emulator's debug options print to it).
+func quietStdout(f func()) {
+	old := os.Stdout
+	if null, err := os.OpenFile(os.DevNull, os.O_WRONLY, 0); err == nil {
+		os.Stdout = null
+		defer func() { os.Stdout = old; null.Close() }()
+	}
+	f()
+}
+
+func newCPUEnvOpts(o machine.Opts) *cpuEnv {
+	e := &cpuEnv{m: machine.New(machine.ROMOnly(), o)}
 	// leave mode 2 before switching the LCD off, so that the OAM-corruption emulation is disarmed
 	for i := 0; i < 30; i++ {
 		e.m.Hardware()
